@@ -119,6 +119,15 @@ def sweep_streams(tier):
         for nm, inner in (('KA', ka), ('KA+KA', ka + ka), ('EOR', eor), ('KA+EOR', ka + eor)):
             L = 19 + len(inner)
             out.append((('COVER', 'T%d' % typ, nm, 'KA'), MARK + bytes([L >> 8, L & 255, typ]) + inner + ka))
+    # headers with two faults at once: the checks come in the order marker, length, type (RFC 4271 6.1)
+    badmarks = [b'\x00' + b'\xff' * 15, b'\xff' * 15 + b'\xfe', b'\xff' * 7 + b'\x7f' + b'\xff' * 8, b'\x00' * 16]
+    for mi, bm in enumerate(badmarks):
+        for L in (0, 18, 4097, 65535, 19):
+            for typ in (4, 2, 6, 255):
+                out.append((('DOUBLE', 'M%d' % mi, 'L%d' % L, 'T%d' % typ), bm + bytes([L >> 8, L & 255, typ])))
+    for L in (0, 1, 18, 4097, 5000, 65535):
+        for typ in (0, 6, 7, 99, 127, 129, 255):
+            out.append((('DOUBLE', 'Mok', 'L%d' % L, 'T%d' % typ), MARK + bytes([L >> 8, L & 255, typ])))
     for t in range(256):
         out.append((('TYPE=%d' % t,), MARK + b'\x00\x13' + bytes([t])))
         out.append((('TYPE=%d+KA' % t,), MARK + b'\x00\x13' + bytes([t]) + MARK + b'\x00\x13\x04'))
